@@ -396,6 +396,7 @@ def renumbered(data, rng):
 
 def correspond(ctx):
     from pptx import Presentation
+    from pptx.oxml import parse_xml
 
     rng = ctx.rng
     lines, impl, metas = [], [], []
@@ -440,9 +441,22 @@ def correspond(ctx):
                     gen_notes_master(rng, prs)
                     ctx.count("generated-notes-master")
                 check_notes(ctx, prs, slide, f"generated#{gi}")
+    # every placeholder type once WITHOUT geometry of its own (all four readings come from the master's counterpart of the
+    # mapped type - or are None where the master has none), and once with it: in every run, whatever the seed
+    for own in (False, True):
+        prs = Presentation(); layout = prs.slide_layouts[rng.choice([1, 5, 6])]
+        spTree = layout.shapes._spTree
+        for sp in list(ph_elms(spTree)):
+            spTree.remove(sp)
+        for i, ty in enumerate(t for t in ALL_TYPES if t != "sldImg"):
+            geom = f'<a:xfrm><a:off x="{1000 * i}" y="{77 * i}"/><a:ext cx="{5000 + i}" cy="{300 + i}"/></a:xfrm>' if own else ""
+            spTree.append(parse_xml(
+                f'<p:sp xmlns:p="{P_NS}" xmlns:a="{A_NS}"><p:nvSpPr><p:cNvPr id="{i + 2}" name="T{i}"/><p:cNvSpPr><a:spLocks noGrp="1"/></p:cNvSpPr>'
+                f'<p:nvPr><p:ph type="{ty}" idx="{i + 10}"/></p:nvPr></p:nvSpPr><p:spPr>{geom}</p:spPr><p:txBody><a:bodyPr/><a:lstStyle/><a:p/></p:txBody></p:sp>'))
+        check_add_slide(ctx, prs, layout, rng, "generated-every-type" + ("" if not own else "-own-geometry"), lines, impl, metas)
+        ctx.count("every-type-layouts")
     # the sldImg case (schema-permitted on a layout, not seen in practice)
     prs = Presentation(); layout = prs.slide_layouts[6]
-    from pptx.oxml import parse_xml
     layout.shapes._spTree.append(parse_xml(
         f'<p:sp xmlns:p="{P_NS}" xmlns:a="{A_NS}"><p:nvSpPr><p:cNvPr id="9" name="Slide Image 1"/><p:cNvSpPr/><p:nvPr><p:ph type="sldImg" idx="5"/></p:nvPr></p:nvSpPr><p:spPr/></p:sp>'))
     check_add_slide(ctx, prs, layout, rng, "generated-sldImg", lines, impl, metas)
